@@ -41,6 +41,7 @@ func runC04(c *ShardCtx) {
 	}
 	idx := 0
 	var batch []c04Case
+	nProblem := 0
 	quota := 14
 	if c.Thorough() {
 		quota = 60
@@ -76,11 +77,14 @@ func runC04(c *ShardCtx) {
 		case b.Err != "":
 			c.Res.Rejected++
 		case len(b.Problems) > 0:
-			known := ""
-			if gen.OptGrammar && strings.Contains(b.Problems[0], "duplicate parameter") {
-				known = "inline-label-clash"
+			// the loader refused the emitted code. Whether that is a defect of the emitted code or
+			// a limit of the loader is decided by the real compiler: the case goes into the
+			// compile batch (a bounded number per shard) and is reported from there
+			c.Res.Counters["refused_by_loader"]++
+			if nProblem < 10 {
+				nProblem++
+				addBatch(strings.Replace(text, "package vgram", "package PKG", 1), gen.Argv(), loaderProblem+b.Problems[0], true)
 			}
-			c.Report(Violation{Desc: "emitted code would not compile: " + b.Problems[0], Grammar: text, Gen: gen.String(), Diffs: b.Problems}, known)
 		default:
 			// each block of the grammar became exactly one method
 			if want, got := len(g.Blocks()), len(b.Prefix.Blocks); !gen.OptGrammar && want != got {
@@ -351,6 +355,13 @@ classes:
 func postC04(tier string, m *ShardResult) {}
 
 // compileBatch is called by the framework for C04 in place of runConformance.
+// loaderProblem marks batch cases whose emitted code the loader refused.
+const loaderProblem = "refused by the loader: "
+
+// loaderAtFault lists batch cases the loader refused although the real tool chain compiles,
+// vets and initialises them (set by compileBatch): a limit of the harness, never a verdict.
+var loaderAtFault []string
+
 func compileBatch(cases []ConfCase) (int, []Violation, error) {
 	dir, err := os.MkdirTemp("", "verif-c04-")
 	if err != nil {
@@ -454,6 +465,20 @@ func compileBatch(cases []ConfCase) (int, []Violation, error) {
 	}
 	if out, err := run("go", "run", "."); err != nil {
 		blame(out, "package initialisation / first Parse panics")
+	}
+	for pkg, cs := range texts {
+		if !strings.Contains(cs.Why, loaderProblem) {
+			continue
+		}
+		blamed := false
+		for _, v := range viols {
+			if strings.Contains(v.Grammar, "package "+pkg+"\n") {
+				blamed = true
+			}
+		}
+		if !blamed {
+			loaderAtFault = append(loaderAtFault, cs.Why+" :: "+oneLine(cs.Text)+" "+strings.Join(cs.Gen.AltEntry, " "))
+		}
 	}
 	return len(texts), viols, nil
 }
